@@ -270,7 +270,9 @@ PROPS["C03"] = dict(
           "fetches with a constant budget, run in processes with cache sizes 1, 2, 3 and 128. Oracle: the verdict forced by the labels "
           "(MUST-document with deep-equal JSON and source = final URL, MUST-error with no document, MAY where the statement is silent), "
           "the simulator's request log (<= budget+1 requests, each on the expected hop sequence, in order), equal answers for equal "
-          "fetches within a history, and no plaintext connection. Non-trivial: the fetched node is a redirect or its response is not "
+          "fetches within a history, and no plaintext connection. (Fuzz, thorough) raw bytes as the whole response: no crash, <= budget+1 "
+          "requests, and a returned document implies the conditions the statement makes necessary (status 200-203, a blank line, at "
+          "least one and only tolerated Content-Type lines, a body starting with a JSON object equal to the document). Non-trivial: the fetched node is a redirect or its response is not "
           "the plain 200 + one JSON content type + object. Distinct = distinct (world, fetches)."),
     units=[
         rapid("Single", "TestSingle", 6000, 200000, config_toml=_NET + "cache_size = 128\n"),
@@ -278,6 +280,9 @@ PROPS["C03"] = dict(
         rapid("HistoryCache1", "TestHistory", 1500, 40000, shards=(2, 4), config_toml=_NET + "cache_size = 1\n"),
         rapid("HistoryCache2", "TestHistory", 1500, 40000, shards=(2, 4), config_toml=_NET + "cache_size = 2\n"),
         rapid("HistoryCache3", "TestHistory", 1500, 40000, shards=(2, 4), config_toml=_NET + "cache_size = 3\n"),
+        dict(name="Raw", test="TestReplayRaw", kind="enum", tiers=(), shards=dict(quick=1, thorough=1), replay_test="TestReplayRaw",
+             config_toml=_NET + "cache_size = 1\n"),
+        fuzz("Fuzz", "FuzzResponse", "150s", config_toml=_NET + "cache_size = 1\n", workers=8),
     ],
     manifest=dict(
         text=("Property-based testing against a loopback TLS simulator: responses and redirect graphs are generated from labelled "
@@ -548,7 +553,8 @@ PROPS["C08"] = dict(
     rule=("binary built with the Go race detector (a report ends the process and is attributed to the journalled case). (Stress) "
           "C07's worlds with per-target response latencies of 0..8 ms derived from a generated seed, a start-up command, 3..40 keys "
           "(keymap keys, digits, '.', Enter, Esc, Backspace, ':feed name' typed out) each issued in its own goroutine after a generated "
-          "pause of 0..20 ms as main does, and a resize poller with a period of 1..25 ms cycling through 2..5 sizes. Oracles: no race "
+          "pause of 0..20 ms as main does, a media hook that runs for 0..60 ms (so keys arrive while it is running), and a resize poller with a period of 1..25 ms "
+          "cycling through 2..5 sizes. Oracles: no race "
           "report; the output callback is never active twice at once; every Update returns and the UI reaches quiescence within 30 s "
           "of the last key. (Fanout) 2..6 goroutines concurrently build, render, page and splice the same objects of a world. "
           "Non-trivial: at least five keys and more than five frames / at least two workers. Distinct = distinct stimulus. The "
